@@ -9,7 +9,7 @@ Steps (fresh scratch worktree of /repo HEAD under /dev/shm, removed afterwards):
 The equivalence argument itself (agent's notes.md) is read by hand before the twin is kept;
 the accepted twin is stored as <PROP>_<name>.diff with a .json record next to it."""
 import sys, os, subprocess, json, shutil, time, argparse, tempfile
-ap = argparse.ArgumentParser(); ap.add_argument('prop'); ap.add_argument('which'); ap.add_argument('--src'); ap.add_argument('--name', default='')
+ap = argparse.ArgumentParser(); ap.add_argument('prop'); ap.add_argument('which'); ap.add_argument('--src'); ap.add_argument('--name', default=''); ap.add_argument('--base', default='HEAD', help='commit of /repo the twin was written against (when a later fix commit changed the behaviour its sanity program pins)')
 ap.add_argument('--why', default='')
 a = ap.parse_args()
 src = a.src or '/tmp/benign/%s/_seed' % a.prop
@@ -18,7 +18,7 @@ wt = tempfile.mkdtemp(prefix='benchk-', dir='/dev/shm'); os.rmdir(wt)
 def sh (cmd, **kw): return subprocess.run(cmd, shell=True, capture_output=True, text=True, **kw)
 ran = []
 try:
-  r = sh('git -C /repo worktree add -q --detach %s HEAD' % wt); assert r.returncode == 0, r.stderr
+  r = sh('git -C /repo worktree add -q --detach %s %s' % (wt, a.base)); assert r.returncode == 0, r.stderr
   os.makedirs(wt + '/_seed')
   for f in os.listdir(src):
     if f.endswith('.py'): shutil.copy(os.path.join(src, f), wt + '/_seed/')
@@ -52,7 +52,7 @@ try:
     nf = os.path.join(src, 'notes_%s.md' % a.which)
     if os.path.exists(nf) and not a.why: a.why = open(nf).read()[:1500]
     json.dump({'property': a.prop, 'variant': a.name or a.which, 'files': files, 'why_equivalent': a.why,
-               'base_commit': sh('git -C /repo rev-parse --short HEAD').stdout.strip(), 'confirmed': time.strftime('%Y-%m-%d %H:%M'),
+               'base_commit': sh('git -C /repo rev-parse --short %s' % a.base).stdout.strip(), 'confirmed': time.strftime('%Y-%m-%d %H:%M'),
                'what_i_ran': [{'step': s, 'cmd': c, 'rc': rc_, 'tail': t} for s, c, rc_, t in ran]}, open(base + '.json', 'w'), indent=1)
 finally:
   sh('git -C /repo worktree remove --force %s' % wt); shutil.rmtree(wt, ignore_errors=True)
